@@ -237,8 +237,11 @@ vnacal_new_parameter_t *_vnacal_new_get_parameter(const char *function,
 
     /*
      * Search for the parameter in the hash and return if found.
+     * A negative handle is never in the table (and must not be
+     * used as a bucket index); it's reported as invalid below.
      */
-    if ((vnprp = hash_lookup(vnphp, parameter)) != NULL) {
+    if (parameter >= 0 &&
+	    (vnprp = hash_lookup(vnphp, parameter)) != NULL) {
 	return vnprp;
     }
 
